@@ -336,16 +336,17 @@ impl Lane {
     }
 
     fn raw_step(&mut self) -> Vec<Out> {
-        let t = self.tspec().clone();
-        if let TKind::Raw { datagrams, gap_ns } = &t.kind {
-            if self.raw_idx < datagrams.len() {
-                let bytes = datagrams[self.raw_idx].clone();
-                self.exch = self.raw_idx as u32;
-                let tag = self.tag(0);
-                self.raw_idx += 1;
-                self.cur().exchanges += 1;
-                return vec![Out::Send { bytes, tag }, Out::ResumeAfter { after_ns: *gap_ns }];
-            }
+        let next = if let TKind::Raw { datagrams, gap_ns } = &self.spec.transfers[self.ti].kind {
+            datagrams.get(self.raw_idx).map(|d| (d.clone(), *gap_ns))
+        } else {
+            None
+        };
+        if let Some((bytes, gap_ns)) = next {
+            self.exch = self.raw_idx as u32;
+            let tag = self.tag(0);
+            self.raw_idx += 1;
+            self.cur().exchanges += 1;
+            return vec![Out::Send { bytes, tag }, Out::ResumeAfter { after_ns: gap_ns }];
         }
         self.finish(TStatus::Done)
     }
@@ -710,6 +711,7 @@ pub fn run_world(spec: &WorldSpec, ch: &mut Ch, verbose: bool) -> WorldResult {
         apply_outs(outs, ci, li, spec, &mut q, ch, &mut stats);
     }
     let mut cap_hit = false;
+    let mut last_activity = 0u64;
     while let Some((_seq, ev)) = q.pop() {
         if q.popped > spec.max_events {
             cap_hit = true;
@@ -717,6 +719,11 @@ pub fn run_world(spec: &WorldSpec, ch: &mut Ch, verbose: bool) -> WorldResult {
             break;
         }
         let now = q.now();
+        if matches!(ev, Ev::ToServer { .. } | Ev::ToClient { .. }) {
+            // stale retransmission timers far in the future must not count
+            // as simulated time covered
+            last_activity = now;
+        }
         match ev {
             Ev::Start { client, lane } => {
                 let gi = lane_index[client][lane];
@@ -840,7 +847,7 @@ pub fn run_world(spec: &WorldSpec, ch: &mut Ch, verbose: bool) -> WorldResult {
             break;
         }
     }
-    let sim_ns = q.now();
+    let sim_ns = last_activity;
     violations.append(&mut server.violations);
     WorldResult { server, lanes, stats, trace, sim_ns, violations, shapes, cap_hit }
 }
